@@ -480,6 +480,23 @@ func runC17(res *lib.Result, tier string, seed int64, args []string) error {
 			res.AddViolation("crash-or-timeout", fmt.Sprintf("session under configuration failed: %v", err), fmt.Sprintf("channel=%d flags=%s pats=%v", channel, flagBits(fl), pats), false)
 			continue
 		}
+		if skipRule != "" {
+			// the rule also holds at event time: opening a file it takes out of the analysis, or a file event about it,
+			// must not bring the file (and its diagnostics) in
+			var fs []string
+			for f := range c17Files {
+				if c17Skipped(skipRule, f) {
+					fs = append(fs, f)
+				}
+			}
+			sort.Strings(fs)
+			for _, f := range fs {
+				sess.DidOpen(f, c17Files[f])
+				sess.Watched(map[string]int{f: 2})
+				sess.Sync()
+				res.Dist("e2e.event-on-ignored-file")
+			}
+		}
 		got := c17View(sess)
 		sess.Close()
 		os.Remove(jsonPath)
